@@ -264,6 +264,9 @@ func (c *Ctx) nonNilSummary(fn *ssa.Function, memo map[*ssa.Function]int) int {
 type errFlowResult struct {
 	site     errSite
 	swallows []*ssa.Return // returns that may carry a nil error while the callee error is non-nil
+	// the call is executed again (a loop came round) on a path on which its earlier error was still
+	// pending: the earlier error is overwritten without ever having been returned
+	overwritten bool
 	tested   bool
 	unused   bool
 }
@@ -365,6 +368,11 @@ func (nf *nilFacts) analyseSite(s errSite) errFlowResult {
 					started = true
 				}
 				continue
+			}
+			if ins == ssa.Instruction(s.call) && len(al) > 0 {
+				// back at the call with its previous error still held somewhere: that error is dropped here
+				res.overwritten = true
+				return
 			}
 			switch n := ins.(type) {
 			case *ssa.Store:
